@@ -172,6 +172,46 @@ def mutants_of(rel, text):
         elif isinstance(node, (ast.Break, ast.Continue)):
             start, end = span(node)
             replace('del-%s' % type(node).__name__.lower(), node.lineno, start, end, 'pass')
+    # third generation: statements moved across a suspension, clean-up made conditional
+    def suspends(stmt):
+        return any(isinstance(n, (ast.Await, ast.Yield, ast.YieldFrom, ast.AsyncWith,
+                                  ast.AsyncFor)) for n in ast.walk(stmt))
+
+    def simple(stmt):
+        return isinstance(stmt, (ast.Expr, ast.Assign, ast.AugAssign, ast.AnnAssign)) and \
+            id(stmt) not in docstrings
+    for node in ast.walk(tree):
+        if id(node) not in in_function:
+            continue
+        for field in ('body', 'orelse', 'finalbody'):
+            body = getattr(node, field, None)
+            if not isinstance(body, list):
+                continue
+            for first, second in zip(body, body[1:]):
+                if simple(first) and simple(second) and suspends(first) != suspends(second) \
+                        and first.col_offset == second.col_offset:
+                    a, b = span(first), span(second)
+                    replace('swap-across-suspension', first.lineno, a[0], b[1],
+                            text[b[0]:b[1]] + text[a[1]:b[0]] + text[a[0]:a[1]])
+        if isinstance(node, ast.Try) and node.finalbody and not node.handlers:
+            # try/finally -> the clean-up only on the regular way out
+            start = pos(node.lineno, node.col_offset)
+            first_body = node.body[0]
+            last_final = node.finalbody[-1]
+            indent = ' ' * node.col_offset
+            body_text = text[pos(first_body.lineno, 0):span(node.body[-1])[1]]
+            final_text = text[pos(node.finalbody[0].lineno, 0):span(last_final)[1]]
+
+            def dedent(block):
+                return '\n'.join(line[4:] if line.startswith(indent + '    ') else line
+                                 for line in block.split('\n'))
+            replace('finally->sequel', node.lineno, pos(node.lineno, 0), span(last_final)[1],
+                    dedent(body_text) + '\n' + dedent(final_text))
+    third = ('swap-across-suspension', 'finally->sequel')
+    if GENERATION == 3:
+        found = [f for f in found if f[0] in third]
+    elif GENERATION in (1, 2):
+        found = [f for f in found if f[0] not in third]
     if GENERATION == 2:
         found = [f for f in found if f[0].split(':')[0] in (
             'del-assign', 'copy-removed', 'index', 'return-none', 'del-break',
